@@ -95,6 +95,16 @@ Matches(got, exp) ==
   \/ exp.r = "ok" /\ got.r = "ok" /\ NormKey(got.f) = NormKey(exp.f)
   \/ exp.r = "ReadError" /\ got.r = "ReadError"
   \/ exp.r \in {"InvalidOpcode", "EitherError"} /\ IsError(got.r)
+\* Named leniency NonMinimalMayBeRefused: the statement's decoding clause is about the encoder's output, which always uses
+\* the shortest length form (RFC 6455 5.2 even says the minimal number of bytes MUST be used).  A COMPLETE frame whose
+\* length is written in a longer form than needed may therefore be decoded (as Decode says) or refused with an error -
+\* never a panic, never another frame.  MinLenFor(b1) is the least length for which the form announced by b1 is minimal.
+MinLenFor(b1) == IF b1 % 128 = 126 THEN 126 ELSE IF b1 % 128 = 127 THEN 65536 ELSE 0
+NonMinimal(bytes) == LET p == Parse(bytes) IN p.complete /\ p.f.len < MinLenFor(bytes[2])
+MatchesWire(got, bytes) ==
+  \/ Matches(got, Decode(bytes))
+  \/ NonMinimal(bytes) /\ Decode(bytes).r = "ok" /\ IsError(got.r)
+RefusedNonMinimal(got, bytes) == NonMinimal(bytes) /\ Decode(bytes).r = "ok" /\ got.r # "ok"
 ConsumesExactly(got, exp) == got.r = "ok" => got.used = exp.used
 SameErrorKind(got, exp) == exp.r = "InvalidOpcode" => got.r = "InvalidOpcode"
 
